@@ -26,6 +26,10 @@ def fams(tier):
     return cachefam.counter_families("memory") + cachefam.counter_families("file")
 
 
+def traps(tier):
+    return [t for be in ('memory','file') for t in cachefam.trap_families(be) if 'cleanup' in t['name']]
+
+
 def run(tier, seed):
     return run_cache_property(
         "C12", tier, seed, mcs, fams, 60, 600, "model_checking",
